@@ -190,5 +190,5 @@ def run(ctx):
 
     # ---- glue between the user's data and the search loop (harness/variants.py) ----
     from harness.variants import variants_stream
-    variants_stream(ctx, "PELT(L2Cost)", lambda: PELT(cost=L2Cost(), min_segment_length=2), ctx.n(3, 20))
+    variants_stream(ctx, "PELT(L2Cost)", lambda: PELT(cost=L2Cost(), min_segment_length=2), ctx.n(3, 20), nested=("cost__param", 0.0))
     variants_stream(ctx, "PELT(GaussianVarCost)", lambda: PELT(cost=GaussianVarCost(), min_segment_length=3), ctx.n(2, 12))
